@@ -14,6 +14,10 @@ from ..common import Check
 from ..impl import SEM_KINDS, run_sem_case
 from ..pegcheck import Jobs, default_case, run_impl, run_oracle, spec_outcome
 
+# the tagging semantics in objects whose own truth value / hashability / equality must play no part (SemIdentity: the actions that
+# run are those of the object given to the call); '/api' = through tatsu.parse(grammar, text, semantics=...)
+OBJECT_SHAPES = ['tag/falsy', 'tag/unhashable', 'tag/equal', 'tag/falsy/api']
+
 SPEC_ACT = {'none': 'none', 'id': 'id', 'tag': 'tag', 'tagdefault': 'tag', 'failb': 'failb'}
 
 
@@ -58,7 +62,7 @@ def universe(tier, seed):
 def run(tier):
     ck = Check('C06', tier)
     items = universe(tier, ck.seed)
-    kinds = list(SEM_KINDS) + ['id/memo-off', 'failfirst', 'failfirst/memo-off']
+    kinds = list(SEM_KINDS) + ['id/memo-off', 'failfirst', 'failfirst/memo-off'] + OBJECT_SHAPES
     jobs, jobkey, cases = Jobs(), [], []
     for it in items:
         rules = [r['name'] for r in it['g']['rules']]
@@ -169,6 +173,11 @@ def run(tier):
                     bad(f"spec ok {s_.get('v')!r}", kind, s_)
                 elif s_['k'] == 'fail' and o['k'] != 'fail':
                     bad('spec: parse failure', kind, s_)
+            # the object's own truth value, hashability and equality play no part
+            for kind in OBJECT_SHAPES:
+                if kind in res and not (kind.endswith('/api') and c['backend'] != 'model') and not same(res[kind], res['tag']):
+                    bad(f"a semantics object that is {kind.split('/')[1]} is not used like any other object ({res[kind].get('k')}"
+                        f"{':' + str(res[kind].get('cls')) if res[kind].get('cls') else ''} instead of the tagged result)", kind, res['tag'])
             # _default only: same as per-rule tagging modulo the tag name
             s_, o = so['tag'], res['tagdefault']
             if s_['k'] == 'ok' and not s_['unspec'] and not (o['k'] == 'ok' and untag_names(o['v']) == untag_names(s_['v'])):
@@ -176,7 +185,7 @@ def run(tier):
             # exceptions reach the caller unchanged; otherwise same as no predicate hit
             s_ = so['raise']
             for kind in res:
-                if not kind.startswith('raise'):
+                if not kind.startswith('raise') or '/' in kind:
                     continue
                 o = res[kind]
                 want = {'raise': 'Custom'}.get(kind, kind[5:])
